@@ -180,6 +180,13 @@ def u_b_ohv(ctx):
       note="bounded(shape): <=2 phases x <=2 taxa x <=5 markers on 1-2 chromosomes (concrete genetic positions without empty bins), "
            "<=2 traits; alleles and effects symbolic")
 def u_b_haplomat(ctx):
+    _haplomat_unit(ctx, None)
+
+
+def _haplomat_unit(ctx, which):
+    """which None: haplo.haplomat; otherwise the `_calc_haplomat` copy of that problem family, called with a phased-matrix stub and
+    a genomic-model stub whose additive effects `u_a` are one array among several (`u` = miscellaneous + additive effects, `u_misc`,
+    `beta` are different symbolic arrays): the block values are those of the ADDITIVE marker effects"""
     def body(e, shape, tag):
         from pybrops.core.util.haplo import haplomat, nhaploblk_chrom, haplobin, haplobin_bounds
         nblk, genpos, stix, spix, n, t = shape
@@ -188,7 +195,27 @@ def u_b_haplomat(ctx):
         p = len(genpos)
         G = barr.fresh("g", (2, n, p), "int8", 0, 1)
         u = barr.fresh("u", (p, t), "float64")
-        hm = haplomat(nblk, G, genpos, stix, spix, spix - stix, u)
+        if which is None:
+            hm = haplomat(nblk, G, genpos, stix, spix, spix - stix, u)
+        else:
+            import importlib
+            mod, cls = which
+            um = barr.fresh("umisc", (1, t), "float64")
+
+            class PG:
+                mat, vrnt_genpos, vrnt_chrgrp_stix, vrnt_chrgrp_spix, vrnt_chrgrp_len = G, genpos, stix, spix, spix - stix
+                ploidy, nphase, ntaxa, nvrnt = 2, 2, n, p
+
+                def is_grouped_vrnt(self):
+                    return True
+
+            class GM:
+                u_a, u_misc, ntrait = u, um, t
+                beta = barr.fresh("beta", (1, t), "float64")
+            GM.u = numpy.concatenate([um, u], axis=0)
+            fr = modeb.Frame(g=G, u=u)
+            hm = getattr(importlib.import_module(mod), cls)._calc_haplomat(PG(), GM(), nblk)
+            e.prove(tag + ":frame:genotypes-and-effects-not-written", fr.unchanged())
         e.prove(tag + ":shape", tuple(hm.shape) == (2, n, nblk, t))
         # the partition itself is concrete here (the library's own bins for these positions)
         hb = haplobin(nhaploblk_chrom(nblk, genpos, stix, spix), genpos, stix, spix)
@@ -206,7 +233,22 @@ def u_b_haplomat(ctx):
         return "ok"
     shapes = [(1, (0.0, 0.5, 1.0), (0,), (3,), 1, 1), (2, (0.0, 0.3, 0.7, 1.0), (0,), (4,), 2, 1),
               (3, (0.0, 1.0, 0.0, 0.4, 1.0), (0, 2), (2, 5), 1, 2)]
-    modeb.run_shapes(ctx, "haplomat", shapes, body)
+    modeb.run_shapes(ctx, "haplomat" if which is None else which[1] + "._calc_haplomat", shapes if which is None else shapes[1:], body)
+
+
+_PROB = "pybrops.breed.prot.sel.prob."
+for _mod, _cls in ((_PROB + "OptimalHaploidValueSelectionProblem", "OptimalHaploidValueSelectionProblemMixin"),
+                   (_PROB + "OptimalPopulationValueSelectionProblem", "OptimalPopulationValueSelectionProblemMixin"),
+                   (_PROB + "GenotypeBuilderSelectionProblem", "GenotypeBuilderSelectionProblemMixin")):
+    def _mk(_mod=_mod, _cls=_cls):
+        @unit(P, "B[%s._calc_haplomat: block value == ADDITIVE effects summed over the block's markers; conserves the additive value]" % _cls,
+              "B", bounded=True, targets=[_mod.replace(".", "/") + ".py:" + _cls + "._calc_haplomat"],
+              note="bounded(shape): 2 phases x <=2 taxa x <=5 markers on 1-2 chromosomes (concrete positions), <=2 traits; alleles and effects "
+                   "symbolic; the model stub has u (misc + additive), u_misc and beta different from u_a")
+        def u(ctx):
+            _haplomat_unit(ctx, (_mod, _cls))
+        return u
+    _mk()
 
 
 @unit(P, "loop[nhaploblk_chrom: every chromosome gets at least one block and the counts add up to exactly the requested total]", "A2",
